@@ -158,7 +158,7 @@ def conversion_table(P, chk):
                 mode = labs[0]
         f = {x["name"]: x["op"] for x in rv["fields"]}
 
-        def who(op):
+        def who(op, depth=0):
             names = set()
             for cn, r in q.chains(b, op):
                 l = None
@@ -172,6 +172,13 @@ def conversion_table(P, chk):
             d = mir.single_def(b, op["place"]["l"]) if op.get("k") in ("copy", "move") else None
             if d and d[0] == "call" and d[4]["args"]:
                 return who(d[4]["args"][0])
+            # another name for one of them: `let primary_commodity = commodity.into_owned();`
+            if l is not None and depth < 4:
+                d2 = mir.single_def(b, l)
+                if d2 and d2[0] == "call" and d2[4]["args"] and short(callee_def(d2[4])) in ("into_owned", "clone", "to_owned", "to_string", "into", "as_ref", "deref"):
+                    return who(d2[4]["args"][0], depth + 1)
+                if d2 and d2[0] == "assign" and d2[4]["k"] == "use":
+                    return who(d2[4]["op"], depth + 1)
             return nm
         # the computed amount built in the same arm
         comp = None
